@@ -22,7 +22,7 @@ def S(engine, flavour, quick, thorough, prop=None, **kw):
 STAGES = {
     "C01": [S("e_seq", "asu", 40000, 400000)],
     "C02": [S("e_seq", "asu", 40000, 400000)],
-    "C05": [S("e_seq", "asu", 40000, 400000)],
+    "C05": [S("e_seq", "asu", 40000, 400000), S("e_tbb", "asu", 10000, 100000)],
     "C06": [S("e_seq", "asu", 40000, 400000)],
     "C09": [S("e_seq", "asu", 40000, 400000), S("e_tbb", "asu", 15000, 150000)],
     "C15": [S("e_seq", "asu", 40000, 400000)],
@@ -407,7 +407,9 @@ def write_evidence(prop, tier, seed, results, stage_info, reported, known_hits, 
         "wall_s": round(wall, 2),
         "violations": len(reported),
     }
-    os.makedirs(os.path.join(VERIF, "evidence"), exist_ok=True)
-    tmp = os.path.join(VERIF, "evidence", prop + ".json.tmp")
+    # evidence/ describes /repo itself: a run against another tree (bin/seedtest, VERIF_REPO=...) writes next to its replays
+    evdir = os.path.join(VERIF, "evidence") if os.path.realpath(REPO) == "/repo" else os.path.join(os.path.dirname(os.environ.get("VERIF_REPLAYS", BUILD).rstrip("/")) or BUILD, "evidence-scratch")
+    os.makedirs(evdir, exist_ok=True)
+    tmp = os.path.join(evdir, prop + ".json.tmp")
     json.dump(ev, open(tmp, "w"), indent=1)
-    os.replace(tmp, os.path.join(VERIF, "evidence", prop + ".json"))
+    os.replace(tmp, os.path.join(evdir, prop + ".json"))
